@@ -104,9 +104,6 @@ package statefulset
 //@ ghost global gReplaceDue set[int] -- ordinals whose Failed/Succeeded pod was deleted in order to be replaced
 //@ ghost global gDeleted set[int]    -- pods (references) for which a delete was issued
 //@ ghost global gUpdDeletes int      -- deletes justified only by the pod's revision
-//@ ghost global gWrites int          -- API writes of any kind issued so far (pods, claims, revisions, status)
-//@ ghost global gPodTouch int        -- writes on pods and claims (create, delete, update, patch)
-//@ ghost global gRevAdopts int       -- ControllerRevision adoptions and label syncs
 //@ ghost global gAlloc0 int          -- allocation mark at the start of the reconcile: objects at or above it were made by this reconcile
 
 //@ spec func desiredG(o int) bool = desired(gR, gS, o)
@@ -412,13 +409,15 @@ package statefulset
 //@   profiles defaulted, crd
 //@   requires ssu != nil && set != nil && status != nil && ssu.client != nil && ssu.setLister != nil
 //@   profile defaulted requires statusBounds(status)
-//@   modifies set.Status
+//@   modifies set.Status, gApiFails, gWrites
 //@   loop 1 "func literal"
 //@     invariant set != nil && (set == old(set) || fresh(set))
 //@ extern github.com/pingcap/advanced-statefulset/client/client/clientset/versioned/typed/apps/v1:StatefulSetInterface.UpdateStatus@realStatefulSetStatusUpdater.UpdateStatefulSetStatus
 //@   params c, ctx, obj, opts
 //@   requires obj != nil
 //@   profile defaulted requires [C12] truthful: obj.Status == deref(status) && 0 <= obj.Status.ReadyReplicas && obj.Status.ReadyReplicas <= obj.Status.Replicas && 0 <= obj.Status.CurrentReplicas && obj.Status.CurrentReplicas <= obj.Status.Replicas && 0 <= obj.Status.UpdatedReplicas && obj.Status.UpdatedReplicas <= obj.Status.Replicas
+//@   modifies gApiFails, gWrites
+//@   ensures failed(old(gApiFails), gApiFails, result1) && gWrites == old(gWrites) + 1
 //@   ensures result1 == nil ==> result0 != nil
 
 // ---- event handlers and the work queue (C16) -----------------------------------------------------------
@@ -511,14 +510,21 @@ package statefulset
 
 //@ func defaultStatefulSetControl.ListRevisions
 //@   profiles defaulted, crd
+//@   params ssc, set
 //@   results revs, err
 //@   requires ssc != nil && set != nil && ssc.csAppsV1 != nil
-//@   ensures err == nil ==> (forall i int :: {revs[i]} 0 <= i && i < len(revs) ==> revs[i] != nil && fresh(revs[i]))
+//@   modifies gApiFails
+//@   ensures [C09] reported: gApiFails > old(gApiFails) ==> err != nil
+//@   ensures [C09] fails: gApiFails >= old(gApiFails)
+//@   ensures [C09] origin: err != nil ==> gApiFails > old(gApiFails) || errSelector(err)
+//@   ensures [C10] freshlabels: err == nil ==> (forall i int :: {revs[i]} 0 <= i && i < len(revs) ==> revs[i].Labels == nil || fresh(revs[i].Labels))
+//@   ensures err == nil ==> (forall i int :: {revs[i]} 0 <= i && i < len(revs) ==> revs[i] != nil && fresh(revs[i]) && allocated(revs[i]))
 //@   ensures [C10,C13] ours: err == nil ==> (forall i int :: {revs[i]} 0 <= i && i < len(revs) ==> revOurs(revs[i], set))
 //@   ensures [C13] once: err == nil ==> (forall a int, b int :: {revs[a], revs[b]} 0 <= a && a < b && b < len(revs) ==> revs[a].Name != revs[b].Name)
 //@   ensures [C10] pointersdistinct: err == nil ==> (forall a int, b int :: {revs[a], revs[b]} 0 <= a && a < b && b < len(revs) ==> revs[a] != revs[b])
 //@   loop 1 "range append(revisions.Items, revisinsToUpgrade.Items...)" index j
 //@     invariant forall i int :: {res[i]} 0 <= i && i < len(res) ==> res[i] != nil && fresh(res[i]) && allocated(res[i])
+//@     invariant [C10] freshlabels: forall i int :: {res[i]} 0 <= i && i < len(res) ==> res[i].Labels == nil || fresh(res[i].Labels)
 //@     invariant [C10,C13] ours: forall i int :: {res[i]} 0 <= i && i < len(res) ==> revOurs(res[i], set)
 //@     invariant [C13] seenall: forall i int :: {res[i]} 0 <= i && i < len(res) ==> seen[res[i].Name]
 //@     invariant [C13] once: forall a int, b int :: {res[a], res[b]} 0 <= a && a < b && b < len(res) ==> res[a].Name != res[b].Name
@@ -543,7 +549,9 @@ package statefulset
 //@   ghost var hidx map[int]int                -- index in revisions of history[m]
 //@   at call append#1 before: ghost hidx[len(history)] = i
 //@   at loopend 2: ghost unusedI[i - 1] = !liveName(revisions[i - 1].Name, current, update, pods)
-//@   modifies gRevDeleted, gRevDelCount, gWrites
+//@   modifies gRevDeleted, gRevDelCount, gWrites, gApiFails
+//@   ensures [C09] reported: gApiFails > old(gApiFails) ==> result != nil
+//@   ensures [C09] origin: result != nil ==> gApiFails > old(gApiFails)
 //@   profile defaulted ensures [C13] trimmed: result == nil ==> count(unusedI, 0, len(revisions)) - gRevDelCount <= deref(set.Spec.RevisionHistoryLimit)
 //@   profile defaulted ensures [C13] unusedchar: forall j int :: {revisions[j]} 0 <= j && j < len(revisions) ==> (unusedI[j] <==> !liveName(revisions[j].Name, current, update, pods))
 //@   profile defaulted ensures [C13] nomore: gRevDelCount <= count(unusedI, 0, len(revisions)) - deref(set.Spec.RevisionHistoryLimit) || gRevDelCount == 0
@@ -560,7 +568,7 @@ package statefulset
 //@     invariant [C13] histsrc: forall m int :: {history[m]} {hidx[m]} 0 <= m && m < len(history) ==> 0 <= hidx[m] && hidx[m] < i && history[m] == revisions[hidx[m]] && unusedI[hidx[m]] && count(unusedI, 0, hidx[m]) == m
 //@     invariant [C13] histinv: forall j int :: {unusedI[j]} 0 <= j && j < i && unusedI[j] ==> 0 <= count(unusedI, 0, j) && count(unusedI, 0, j) < len(history) && hidx[count(unusedI, 0, j)] == j
 //@   loop 3 "for i := 0; i < len(history)"
-//@     invariant 0 <= i && i <= len(history) && gRevDelCount == i && gWrites >= old(gWrites)
+//@     invariant 0 <= i && i <= len(history) && gRevDelCount == i && gWrites >= old(gWrites) && gApiFails == old(gApiFails)
 //@     invariant [C13] deletedprefix: forall n string :: {gRevDeleted[n]} gRevDeleted[n] <==> (exists m int :: {history[m]} 0 <= m && m < i && history[m].Name == n)
 
 //@ extern k8s.io/client-go/kubernetes/typed/apps/v1:ControllerRevisionInterface.Delete@defaultStatefulSetControl.truncateHistory
@@ -570,6 +578,109 @@ package statefulset
 //@   profile defaulted requires [C13] overlimit: count(unusedI, 0, len(revisions)) - gRevDelCount > deref(set.Spec.RevisionHistoryLimit)
 //@   profile defaulted requires [C13] oldestfirst: forall j int :: {revisions[j]} 0 <= j && j < len(revisions) && unusedI[j] && (exists m int :: {revisions[m]} j < m && m < len(revisions) && revisions[m].Name == name) ==> gRevDeleted[revisions[j].Name]
 //@   profile defaulted requires [C13] once: !gRevDeleted[name]
-//@   modifies gRevDeleted, gRevDelCount, gWrites
+//@   modifies gRevDeleted, gRevDelCount, gWrites, gApiFails
 //@   noalloc
 //@   ensures gRevDeleted == store(old(gRevDeleted), name, true) && gRevDelCount == old(gRevDelCount) + 1 && gWrites == old(gWrites) + 1
+//@   ensures failed(old(gApiFails), gApiFails, result)
+
+// ---- adoption of orphan revisions (C09, C10, C11) -------------------------------------------------------
+//@ const UpgradeAnn = "apps.pingcap.com/upgrade-to-asts"
+//@ ghost global gConfirmed bool   -- an uncached read has confirmed: same UID, not being deleted
+//@ ghost global gPermErr bool     -- the error being returned is one of the documented non-API errors
+
+//@ func shouldSyncLabels
+//@   requires revision != nil
+//@   pure
+//@   ensures result == (revision.Labels != nil && revision.Labels.has(UpgradeAnn))
+
+//@ func syncLabels
+//@   results updated, err
+//@   requires kubeClient != nil && set != nil && revision != nil
+//@   profile defaulted requires [C10] copyonly: revision >= gAlloc0
+//@   profile defaulted requires [C11] notdeleting: set.DeletionTimestamp == nil
+//@   modifies revision.Labels, map(revision.Labels), gApiFails, gWrites, gRevAdopts
+//@   ensures failed(old(gApiFails), gApiFails, err) && gWrites == old(gWrites) + 1 && gRevAdopts == old(gRevAdopts) + 1
+//@   ensures err == nil ==> updated != nil && fresh(updated) && (updated.Labels == nil || fresh(updated.Labels))
+//@   at call Update#1 after: ghost gRevAdopts = gRevAdopts + 1
+//@   loop 1 "range set.Spec.Template.Labels"
+//@     invariant labels != nil && (labels == old(revision.Labels) || fresh(labels))
+
+//@ func defaultStatefulSetControl.adoptControllerRevision
+//@   results adopted, err
+//@   requires ssc != nil && ssc.csAppsV1 != nil && parent != nil && revision != nil
+//@   profile defaulted requires [C09,C10] orphan: revOrphan(revision)
+//@   profile defaulted requires [C10] confirmed: gConfirmed
+//@   profile defaulted requires [C11] notdeleting: metaOf(parent).DeletionTimestamp == nil
+//@   modifies gApiFails, gWrites, gRevAdopts
+//@   ensures gWrites >= old(gWrites) && gRevAdopts >= old(gRevAdopts) && gApiFails >= old(gApiFails)
+//@   profile defaulted ensures [C09] reported: gApiFails > old(gApiFails) ==> err != nil
+//@   profile defaulted ensures [C09] origin: err != nil ==> gApiFails > old(gApiFails) || errMarshal(err)
+//@   ensures err == nil ==> adopted != nil && fresh(adopted)
+// errMarshal: an error of json.Marshal on the patch struct (cannot happen for this struct; assumed benign)
+//@ spec func errMarshal(e error) bool
+
+//@ extern encoding/json:Marshal@defaultStatefulSetControl.adoptControllerRevision
+//@   params v
+//@   results data, merr
+//@   pure
+//@   ensures merr != nil ==> errMarshal(merr)
+
+//@ extern k8s.io/client-go/kubernetes/typed/apps/v1:ControllerRevisionInterface.Patch@defaultStatefulSetControl.adoptControllerRevision
+//@   params c, ctx, name, pt, data, opts, subresources
+//@   results patched, perr
+//@   profile defaulted requires [C10] ownonly: name == revision.Name && revOrphan(revision) && gConfirmed
+//@   modifies gApiFails, gWrites, gRevAdopts
+//@   ensures failed(old(gApiFails), gApiFails, perr) && gWrites == old(gWrites) + 1 && gRevAdopts == old(gRevAdopts) + 1
+//@   ensures perr == nil ==> patched != nil && fresh(patched) && patched.Name == name && (patched.Labels == nil || fresh(patched.Labels))
+
+//@ func defaultStatefulSetControl.AdoptOrphanRevisions
+//@   profiles defaulted, crd
+//@   params ssc, set, revisions
+//@   requires ssc != nil && ssc.csAppsV1 != nil && set != nil
+//@   requires forall i int :: {revisions[i]} 0 <= i && i < len(revisions) ==> revisions[i] != nil
+//@   profile defaulted requires [C10] confirmed: gConfirmed
+//@   profile defaulted requires [C11] notdeleting: set.DeletionTimestamp == nil
+//@   modifies elems(revisions), gApiFails, gWrites, gRevAdopts
+//@   ensures gWrites >= old(gWrites) && gRevAdopts >= old(gRevAdopts) && gApiFails >= old(gApiFails)
+//@   profile defaulted ensures [C09] reported: gApiFails > old(gApiFails) ==> result != nil
+//@   profile defaulted ensures [C09] origin: result != nil ==> gApiFails > old(gApiFails) || errMarshal(result)
+//@   ensures result == nil ==> (forall i int :: {revisions[i]} 0 <= i && i < len(revisions) ==> revisions[i] != nil)
+//@   loop 1 "range revisions"
+//@     invariant len(revisions) == len(old(revisions))
+//@     invariant forall j int :: {revisions[j]} 0 <= j && j < len(revisions) ==> revisions[j] != nil
+//@     invariant gWrites >= old(gWrites) && gRevAdopts >= old(gRevAdopts) && gApiFails == old(gApiFails)
+
+//@ interface StatefulSetControlInterface.ListRevisions
+//@   sameas defaultStatefulSetControl.ListRevisions
+//@ interface StatefulSetControlInterface.AdoptOrphanRevisions
+//@   sameas defaultStatefulSetControl.AdoptOrphanRevisions
+//@ interface StatefulSetControlInterface.UpdateStatefulSet
+//@   sameas defaultStatefulSetControl.UpdateStatefulSet
+
+//@ func StatefulSetController.adoptOrphanRevisions
+//@   profiles defaulted, crd
+//@   requires ssc != nil && ssc.control != nil && ssc.kubeClient != nil && ssc.pcClient != nil && set != nil
+//@   at entry: ghost gAlloc0 = allocMark(); ghost gConfirmed = false; ghost gPermErr = false
+//@   at call Errorf#1 after: ghost gPermErr = true
+//@   at call Errorf#2 after: ghost gPermErr = true
+//@   at call AdoptOrphanRevisions#1 before: ghost gConfirmed = fresh != nil && fresh.UID == set.UID && fresh.DeletionTimestamp == nil
+//@   ghost var old2revs []*kubeapps.ControllerRevision
+//@   at loopstart 2: ghost old2revs = revisions
+//@   modifies gApiFails, gWrites, gRevAdopts, gAlloc0, gConfirmed, gPermErr
+//@   ensures gWrites >= old(gWrites) && gRevAdopts >= old(gRevAdopts) && gApiFails >= old(gApiFails)
+//@   profile defaulted ensures [C11] deletinghandsoff: set.DeletionTimestamp != nil ==> gRevAdopts == old(gRevAdopts) && gWrites == old(gWrites)
+//@   profile defaulted ensures [C09] reported: gApiFails > old(gApiFails) ==> result != nil
+//@   profile defaulted ensures [C09] origin: result != nil ==> gApiFails > old(gApiFails) || gPermErr || errMarshal(result) || errSelector(result)
+//@   loop 1 "range revisions"
+//@     invariant gApiFails == old(gApiFails) && gWrites == old(gWrites) && gRevAdopts == old(gRevAdopts)
+//@   loop 2 "range revisions" frame entry
+//@     invariant len(revisions) == len(old2revs)
+//@     invariant forall j int :: {revisions[j]} 0 <= j && j < len(revisions) ==> revisions[j] != nil && revisions[j] >= gAlloc0 && allocated(revisions[j]) && (revisions[j].Labels == nil || revisions[j].Labels >= gAlloc0)
+//@     invariant forall a int, b int :: {revisions[a], revisions[b]} 0 <= a && a < b && b < len(revisions) ==> revisions[a] != revisions[b]
+//@     invariant gApiFails == old(gApiFails) && gWrites >= old(gWrites) && gRevAdopts >= old(gRevAdopts) && set.DeletionTimestamp == nil
+//@ extern github.com/pingcap/advanced-statefulset/client/client/clientset/versioned/typed/apps/v1:StatefulSetInterface.Get@StatefulSetController.adoptOrphanRevisions
+//@   params c, ctx, name, opts
+//@   results freshset, gerr
+//@   modifies gApiFails
+//@   ensures failed(old(gApiFails), gApiFails, gerr)
+//@   ensures gerr == nil ==> freshset != nil && fresh(freshset) && freshset.Name == name
